@@ -334,6 +334,12 @@ impl Index {
     }
 
     fn locate_func_macro(&self, name: &str, in_file: Option<&str>) -> Result<Found, Undecided> {
+        // `NAME @ PATTERN`: the invocation must be the body of the match arm `PATTERN => func!(fn NAME ..)`, so that the
+        // body that is verified is the one that runs for that variant
+        let (name, arm) = match name.split_once(" @ ") {
+            Some((n, a)) => (n.trim(), Some(norm(a))),
+            None => (name, None),
+        };
         let mut hits = vec![];
         for f in &self.files {
             if let Some(p) = in_file {
@@ -379,7 +385,14 @@ impl Index {
                 };
                 let inner = &f.text[start..end];
                 if let Ok(item) = syn::parse_str::<syn::ItemFn>(inner) {
-                    if item.sig.ident == name {
+                    let arm_ok = match &arm {
+                        Some(a) => {
+                            let before = norm(&f.text[..start - "func!(".len()]);
+                            before.ends_with(&format!("{}=>", a))
+                        }
+                        None => true,
+                    };
+                    if item.sig.ident == name && arm_ok {
                         let br = item.block.span().byte_range();
                         let body_abs = start + br.start;
                         hits.push(Found {
